@@ -939,6 +939,12 @@ def float_pair_outcomes(ctx, run, rule, cone):
             rel = {'lt', 'eq', 'gt'}
             for c in q.conds:
                 t = c[0]
+                if t[0] == 'discr' and c[1] == 'eq' and c[2] == 0 and is_call(deref_all(t[1]), 'PartialOrd::partial_cmp') and len(deref_all(t[1])[2]) == 2:
+                    # `partial_cmp(a, b)` answered None: the two floats are unordered (one is NaN) — none of <, =, > holds, so a constant returned
+                    # here says nothing about the order of comparable values (what NaN compares as is R18.4's comparator clause, not this one)
+                    pa, pb = deref_all(deref_all(t[1])[2][0]), deref_all(deref_all(t[1])[2][1])
+                    if a1 is not None and {repr(pa), repr(pb)} == {repr(a1), repr(a2)}:
+                        rel = set()
                 if t[0] == 'bin' and (t[1], c[2]) in REL and c[1] == 'eq':
                     x, y = deref_all(t[2]), deref_all(t[3])
                     if a1 is None and (is_floaty(x) or is_floaty(y)):
